@@ -2,8 +2,15 @@
 let z_of_int i = if i = 0 then Z0 else if i > 0 then Zpos (pos_of_int i) else Zneg (pos_of_int (-i))
 let int_of_z = function Z0 -> 0 | Zpos p -> int_of_pos p | Zneg p -> - (int_of_pos p)
 let op_of_string s =
-  let n = z_of_int (int_of_string (String.sub s 1 (String.length s - 1))) in
+  let arg = String.sub s 1 (String.length s - 1) in
+  if s.[0] = 'M' then                      (* M<md>:<lo> = set_max_difference(md, lo) *)
+    (match String.split_on_char ':' arg with
+     | [a; b] -> SlSetMaxDiff (z_of_int (int_of_string a), z_of_int (int_of_string b))
+     | _ -> failwith "op M")
+  else
+  let n = z_of_int (int_of_string arg) in
   match s.[0] with
+  | 'Z' -> SlSignalAll                     (* signal_all(); result printed as [value] *)
   | 'A' -> Acquire n | 'Y' -> TryAcquire | 'W' -> TryWait n | 'R' -> Release n
   | 'S' -> SlWait n | 'T' -> SlTryWait n | 'G' -> SlSignal n
   | 'D' -> TimedAcquire n
@@ -27,7 +34,9 @@ let () =
         let per = Array.make tn [] in
         List.iter (fun e ->
           let i = int_of_nat e.ev_tid in
-          if i < tn then per.(i) <- (if e.ev_res then "1" else "0") :: per.(i)) g.slog;
+          if i < tn then per.(i) <- (match e.ev_op with
+                                     | SlSignalAll -> Printf.sprintf "[%d]" (int_of_z e.ev_lower)
+                                     | _ -> if e.ev_res then "1" else "0") :: per.(i)) g.slog;
         let blocked = List.filter (fun i -> is_blocked_thread c (nat_of_int i)) (List.init tn (fun i -> i)) in
         let fin = if fam = "S" then int_of_z g.lower else int_of_z g.value in
         Printf.printf "OUT LS %s sites=%s res=%s blocked=%s final=%d\n" id
